@@ -480,7 +480,8 @@ var verifSPMPieces = []string{"▁", "e", "t", "a", "o", "n", "i", "s", "r", "h"
 	"▁▁", "▁▁▁▁", "th", "the", "re", "on", "▁s", "▁w", "ing", "▁in", "at", "en", "nd", "▁and", "1", "2", "3", "12", "123", "0", "00",
 	"你", "好", "你好", "世", "界", "世界", "日本", "日", "本", "語", "م", "ر", "ح", "ب", "ا", "مر", "مرحبا", "é", "è", "ü", "ñ", "́", "é",
 	"👍", "👨", "‍", "👩", "👨‍👩", "❤", "️", "❤️", ".", ",", "!", "?", "..", "...", "\n", "\n\n", "\t", "aa", "aaa", "aaaa", "ab", "ba", "aba",
-	"x", "y", "xy", "yx", "xyx", "w", "wo", "wor", "world", "▁world", "hel", "hello", "▁hello", "lo", "ll", "<", ">", "0x", "<0", "<0x"}
+	"x", "y", "xy", "yx", "xyx", "w", "wo", "wor", "world", "▁world", "hel", "hello", "▁hello", "lo", "ll", "<", ">", "0x", "<0", "<0x",
+	"<0x041>", "<0x4>", "[0x41]"} // the last three: NOT byte tokens (7 / 5 bytes, other brackets): Decode must write them verbatim
 
 // verifSynthSPM: a sentencepiece-style vocabulary laid out like gemma 3 (ids 105/106 = turn markers).
 func verifSynthSPM() *Vocabulary {
@@ -834,6 +835,17 @@ func verifTokenizers(t testing.TB, enc [256]int) []*verifTok {
 	sv := verifSynthSPM()
 	spm := NewSentencePieceModel(sv)
 	out = append(out, &verifTok{name: "spm", family: "spm", tp: spm, vocab: sv, maxRunes: verifMaxRunes(sv), covering: true})
+	gv := verifSynthSPM()
+	for i, s := range gv.Values { // drop a few byte tokens (the vocabulary keeps its layout)
+		if s == "<0xC3>" || s == "<0x7A>" || s == "<0x0C>" {
+			gv.Values[i], gv.Types[i] = fmt.Sprintf("<dropped%d>", i), TOKEN_TYPE_UNUSED
+		}
+	}
+	for _, p := range []string{"<0xZZ>", "<0x_F>", "<0xF_>", "<0xé>", "<0x041>", "<0x4>"} {
+		gv.Values, gv.Types, gv.Scores = append(gv.Values, p), append(gv.Types, TOKEN_TYPE_NORMAL), append(gv.Scores, -3)
+	}
+	gv.AddEOS = true
+	out = append(out, &verifTok{name: "spmgap", family: "spm", tp: NewSentencePieceModel(gv), vocab: gv, maxRunes: verifMaxRunes(gv), covering: false})
 	pb := NewBytePairEncoding(`(?s).`, verifProbeVocab())
 	out = append(out, &verifTok{name: "probe", family: "bpe", tp: pb, bpe: &pb, vocab: pb.vocab, maxRunes: 12, covering: true, pre: `(?s).`})
 	for _, tk := range out {
@@ -1640,6 +1652,10 @@ func verifFixedCases() [][]verifSeg {
 			one(s)
 		}
 	}
+	one("<0xZZ>")
+	one("<0x_F>")
+	one("<0x041>")
+	one("<0x4> zé\fq")
 	one("hello world")
 	one("Hello, World! It's 2024 — the year of the 🐉.\n\n  Indented\tline\r\n")
 	one("aaaaaaaaaaaaaaaaaaaaaaaaaaaaaaaaa")
@@ -1720,6 +1736,11 @@ func TestVerifC20(t *testing.T) {
 			}
 		}
 	}
+	// addSpecial on every tokenizer, on an empty and a non-empty text (BOS/EOS branches with every seed)
+	for _, tk := range toks {
+		tk.runHistory(enc, []verifCall{{"", true}, {"a b", true}, {"", false}, {"hello", true}}, out)
+		out.Count("fixed_cases")
+	}
 	// code point sweep: every pre-tokenizer pattern must match every Unicode scalar value (alone, after a
 	// letter, doubled after a space): with classes that cover every code point, the alternation leaves no gap
 	donePat := map[string]bool{}
@@ -1747,7 +1768,7 @@ func TestVerifC20(t *testing.T) {
 	}
 	var pick []*verifTok
 	for _, tk := range toks {
-		w := map[string]int{"llama32": 4, "synth": 1, "synthgap": 1, "spm": 3, "probe": 1}[tk.name]
+		w := map[string]int{"llama32": 4, "synth": 1, "synthgap": 1, "spm": 3, "spmgap": 1, "probe": 1}[tk.name]
 		if w == 0 {
 			w = 2 // llama32-preK
 		}
@@ -1860,7 +1881,20 @@ func TestVerifC20(t *testing.T) {
 				text += sg.s
 			}
 			if text != "" && r.Chance(1, 400) { // medium-length texts (4-60 KiB), pieces stay short: L1 as well
-				text = strings.Repeat(text+" ", 1+r.Range(4096, 60000)/(len(text)+1))
+				rep := 1 + r.Range(4096, 60000)/(len(text)+1)
+				// the real splitting loop rebuilds the fragment slice at every special occurrence (quadratic in their
+				// number: minutes for 20 000 occurrences, seen with seed 6): keep the occurrences of a repeated text below ~600
+				nsp := 0
+				for _, f := range verifFragments(tk.specials, text+" ") {
+					if f.sp {
+						nsp++
+					}
+				}
+				if nsp > 0 && rep > 600/nsp {
+					rep = max(1, 600/nsp)
+					out.Count("call_medium_length_text_capped_special_occurrences")
+				}
+				text = strings.Repeat(text+" ", rep)
 				out.Count("call_medium_length_text")
 			}
 			calls = append(calls, verifCall{text, r.Chance(1, 4)})
